@@ -541,6 +541,24 @@ fn obs_inproc_isolated(
 
 /// Run every launch of the spec and compare with the reference as each returns.
 /// `stop_at_first` ends the group at the first difference (the normal mode).
+/// Same bytes, different file: before each launch the input file's metadata follows the plan. On
+/// odd keys the file is replaced by a fresh copy (new inode, new creation time); its modification
+/// and access times are set from the plan's clock (up to 255 hours before "now"). The content the
+/// program reads is byte-identical in every launch, so any difference this causes is the program's.
+fn file_metadata_fault(path: &Path, source: &[u8], plan: &Plan) {
+    if plan.key[2] & 1 == 1 {
+        let fresh = path.with_extension("fresh");
+        if fs::write(&fresh, source).is_ok() && fs::rename(&fresh, path).is_err() {
+            let _ = fs::remove_file(&fresh);
+        }
+    }
+    let secs = plan.clock_base.saturating_sub(1 + u64::from(plan.key[1]) * 3600);
+    let when = std::time::UNIX_EPOCH + std::time::Duration::new(secs, u32::from(plan.key[3]) * 1_000_000);
+    if let Ok(file) = fs::File::options().write(true).open(path) {
+        let _ = file.set_times(fs::FileTimes::new().set_modified(when).set_accessed(when));
+    }
+}
+
 pub fn run_spec(spec: &Spec, envs: &Envs, scratch_tag: &str, stop_at_first: bool) -> Outcome {
     let mut out = Outcome {
         status: "ok".to_owned(),
@@ -603,7 +621,11 @@ pub fn run_spec(spec: &Spec, envs: &Envs, scratch_tag: &str, stop_at_first: bool
         }
     }
 
+    let file_on_disk = spec.tier == Tier::Exec || (spec.mode == "main" && sim_inproc::real_main_available());
     for (i, plan) in spec.plans.iter().enumerate() {
+        if file_on_disk {
+            file_metadata_fault(&dir.join(&spec.file_name), &spec.source, plan);
+        }
         let (obs, log) = match spec.tier {
             Tier::InProc if spec.isolation == "process" => {
                 obs_inproc_isolated(spec, &path_arg, &dir, plan, envs, &mut out.orders, &mut out.mirror_mismatches)
